@@ -5,10 +5,14 @@ from lib import REPO
 def extract():
     probs = []
     src = open(os.path.join(REPO, "src/generate/generate_statements.rs")).read()
-    m = re.search(r"fn generate_csleep_statement\(&mut self, cycles: i32, pos: usize\)[^{]*\{\s*match cycles \{(.*?)\n        \};\s*(?://[^\n]*\n\s*)*(?:self\.flags = FlagsState::Unknown;\s*)?Ok\(\(\)\)\s*\}", src, re.S)
+    # an optional guard in front of the table: the delays built from STA/DEC DUMMY need that variable
+    m = re.search(r"fn generate_csleep_statement\(&mut self, cycles: i32, pos: usize\)[^{]*\{\s*"
+                  r"(?:if matches!\(cycles, ([\d |]+)\) && !self\.compiler_state\.variables\.contains_key\(\"DUMMY\"\) \{\s*return Err\(self\.compiler_state\.syntax_error\([^;]*?\)\);\s*\}\s*)?"
+                  r"match cycles \{(.*?)\n        \};\s*(?://[^\n]*\n\s*)*(?:self\.flags = FlagsState::Unknown;\s*)?Ok\(\(\)\)\s*\}", src, re.S)
     if not m:
         return "", ["generate_csleep_statement: function shape not recognised"]
-    body = m.group(1)
+    guarded = set(int(x) for x in re.findall(r"\d+", m.group(1))) if m.group(1) else None
+    body = m.group(2)
     # split into arms at top level:  N => <expr or block>
     arms = re.split(r"\n            (?=(?:\d+|_) =>)", "\n" + body)
     table = []
@@ -46,6 +50,10 @@ def extract():
         table.append((int(key), seq))
     if not default_ok:
         probs.append("csleep: no rejecting default arm found")
+    if guarded is not None:
+        uses = set(n for n, seq in table if any(d for _, d, _ in seq))
+        if guarded != uses:
+            probs.append("csleep: the DUMMY guard covers %s but the arms using DUMMY are %s" % (sorted(guarded), sorted(uses)))
     # is the generator's flag belief reset in this function? (DESIGN.md section 7, row 11)
     resets = "self.flags = FlagsState::Unknown" in m.group(0)
     lines = ["/-- csleep(n) arms: (n, [(mnemonic, operand is DUMMY, protected)]) — from generate_csleep_statement -/",
